@@ -558,14 +558,14 @@ func ruleText() string {
 	return "corpus cases; every history of 1..D calls (D=3 quick, 4 thorough) over {update v in {1,2} at ts in {1,2,3}, delete at ts in {1,2,3}} on one leaf, " +
 		"event-driven on; seeded random histories of 2..25 calls (single/multi/atomic/delete/empty notifications over index paths a/b a/c a/b/c a d[k]/e f with prefix/path splits, " +
 		"timestamps mostly in 1..4, clock in {0,1,3}, threshold in {0,2}, occasional Reset/Remove/Add, metadata paths, unknown targets); " +
-		"future-guard histories (threshold 2/3/-1, ts in -1..8, clock in 0..6); look-alike value histories (per leaf, successive updates from one pool of easily confused values of every TypedValue arm, non-decreasing timestamps); mixed elem/element encodings with siblings followed by deletes and Reset; index paths with literal \"*\" elements, key values \"*\" and other glob-looking names updated repeatedly and deleted by glob; timestamps next to MinInt64/MaxInt64 and negative ones in pairs on one leaf. distinct = distinct (config, targets, calls); " +
+		"future-guard histories (threshold 2/3/-1, ts in -1..8, clock in 0..6); look-alike value histories (per leaf, successive updates from one pool of easily confused values of every TypedValue arm, non-decreasing timestamps); mixed elem/element encodings with siblings followed by deletes and Reset; index paths with literal \"*\" elements, key values \"*\" and other glob-looking names updated repeatedly and deleted by glob; timestamps next to MinInt64/MaxInt64 and negative ones in pairs on one leaf; two-writer histories (the first writer parked inside its critical section at the cache.Now override or in the callback, the second issued from another goroutine; expected [first; second]). distinct = distinct (config, targets, calls); " +
 		"non-trivial = some call was rejected as stale/future (also inside a multi notification) or some delete removed a leaf"
 }
 
 const c03Rule = "corpus cases (witnesses of the two defects and of the path-origin finding); every history of 1..D calls (D=3 quick, 4 thorough) over an alphabet of 11 calls on target t " +
 	"(scalar a/b with two values and two timestamps, scalar a/c, atomic container at a/b, multi update+delete, deletes a/b a/* *, Reset, Remove, Add), event-driven on; " +
 	"seeded random histories of 2..25 calls over two targets (as C02, plus Reset/Remove/Add/Sync/Connect/ConnectError/UpdateMetadata under a non-decreasing clock); " +
-	"aliasing histories (2..4 leaves written through one shared prefix object with 1..3 spare slots, then subtree / wildcard / single deletes and Reset); " +
+	"aliasing histories (2..4 leaves written through one shared prefix object with 1..3 spare slots in every slice-typed field, in the elem, the deprecated element and the mixed encodings, singly or by one multi-update, then subtree / wildcard / single / double deletes, Reset, Remove+Add); two-writer histories; " +
 	"atomic<->scalar histories on one index path with equal and different first values, event-driven on and off; " +
 	"look-alike value histories (per leaf, successive updates from one pool of easily confused values: re-scaled decimals, decimals collapsing in float32/float64, leaf-lists that are prefixes of each other / differ in the last element / nested, the same number as int/uint/string/bytes/json/ascii/decimal/float/double, float vs double, +0/-0, NaN, near-equal strings); " +
 	"mixed elem/element encodings of prefix and path with siblings, then subtree / wildcard / leaf deletes and Reset; " +
@@ -607,6 +607,13 @@ func generate(e *emitter, o vh.Opts) {
 	for i := 0; i < nstar; i++ {
 		e.add(starCase(r.Fork()))
 	}
+	npair := 300
+	if o.Thorough() {
+		npair = 3000
+	}
+	for i := 0; i < npair; i++ {
+		e.add(pairCase(r.Fork()))
+	}
 	for i := 0; i < next; i++ {
 		e.add(extremeTsCase(r.Fork()))
 	}
@@ -644,17 +651,41 @@ func aliasCase(r *vh.Rand) *Case {
 	c := &Case{Family: "alias", Targets: []string{"t"}, Cfg: CfgJ{EventDriven: r.Chance(1, 2)}}
 	pe := [][]string{{"a"}, {"a", "b"}}[r.Intn(2)]
 	spare := 1 + r.Intn(3)
-	shared := func() *PathJ { return pfx("t", pe...) }
+	// encoding of prefix / path: 0 elem+elem, 1 element+element (deprecated), 2 elem+element, 3 element+elem
+	enc := r.Pick(4, 4, 1, 1)
+	mkp := func(el bool, names ...string) *PathJ {
+		if el {
+			return &PathJ{Element: append([]string{}, names...)}
+		}
+		return &PathJ{Elems: elems(names...)}
+	}
+	shared := func() *PathJ {
+		p := mkp(enc == 1 || enc == 3, pe...)
+		p.Target = "t"
+		return p
+	}
+	leafPath := func(names ...string) *PathJ { return mkp(enc == 1 || enc == 2, names...) }
 	leaves := [][]string{{"x"}, {"y"}, {"z"}, {"x", "w"}, {"v", "w"}}
 	k := 2 + r.Intn(3)
 	used := map[string]bool{}
+	if r.Chance(1, 4) { // the leaves arrive in ONE multi-update notification through the shared prefix
+		n := &NotiJ{TS: 1, Prefix: shared(), PfxID: 1, PfxSpare: spare}
+		for _, lf := range leaves[:k] {
+			if used[lf[0]] {
+				continue
+			}
+			used[lf[0]] = true
+			n.Upd = append(n.Upd, UpdJ{Path: leafPath(lf...), Val: ival(1)})
+		}
+		c.Ops = append(c.Ops, Op{K: "upd", N: n})
+	}
 	for i := 0; i < k; i++ {
 		lf := leaves[r.Intn(len(leaves))]
 		if used[lf[0]] {
 			continue
 		}
 		used[lf[0]] = true
-		n := updN(int64(1+r.Intn(3)), shared(), pth(lf...), ival(int64(1+r.Intn(2))))
+		n := updN(int64(1+r.Intn(3)), shared(), leafPath(lf...), ival(int64(1+r.Intn(2))))
 		if !r.Chance(1, 6) { // now and then one leaf through its own prefix object
 			n.PfxID, n.PfxSpare = 1, spare
 		}
@@ -679,15 +710,91 @@ func aliasCase(r *vh.Rand) *Case {
 			q = []string{"a"}
 		}
 		ts := int64(2 + r.Intn(8))
-		if r.Chance(1, 8) {
+		switch r.Pick(10, 2, 1, 1) {
+		case 1: // Reset announces one delete per root
 			c.Ops = append(c.Ops, Op{K: "reset", Tgt: "t", Now: ts})
 			continue
+		case 2: // target delete, then the target comes back
+			c.Ops = append(c.Ops, Op{K: "remove", Tgt: "t", Now: ts}, Op{K: "add", Tgt: "t"})
+			continue
+		case 3: // two deletes in one notification: two gnmiRemove calls
+			d := delN(ts, pfx("t"), pth(q...))
+			d.Del = append(d.Del, *pth("q"))
+			c.Ops = append(c.Ops, Op{K: "upd", N: d})
+			continue
 		}
-		c.Ops = append(c.Ops, Op{K: "upd", N: delN(ts, pfx("t"), pth(q...))})
+		d := delN(ts, pfx("t"), pth(q...))
+		if enc == 1 && r.Chance(1, 2) {
+			d = delN(ts, &PathJ{Target: "t"}, &PathJ{Element: q})
+		}
+		c.Ops = append(c.Ops, Op{K: "upd", N: d})
 		if r.Chance(1, 3) { // re-add one leaf through the shared prefix
-			n := updN(ts+1, shared(), pth("x"), ival(3))
+			n := updN(ts+1, shared(), leafPath("x"), ival(3))
 			n.PfxID, n.PfxSpare = 1, spare
 			c.Ops = append(c.Ops, Op{K: "upd", N: n})
+		}
+	}
+	return c
+}
+
+// pairCase: two writers of one target.  The first is parked inside its
+// critical section (at the cache.Now override, which gnmiUpdate calls between
+// the stale decision and the write when a threshold is configured, and which
+// Reset / Sync / Connect / UpdateMetadata call when they stamp their
+// notifications; or inside the SetClient callback), the second is issued from
+// another goroutine.  Expected: [first; second].
+func pairCase(r *vh.Rand) *Case {
+	c := &Case{Family: "two-writers", Targets: []string{"t"}, Cfg: CfgJ{Thr: 2, EventDriven: r.Chance(1, 2)}}
+	upd := func(leaf string, ts, v int64) *Op {
+		return &Op{K: "upd", N: updN(ts, pfx("t", "a"), pth(leaf), ival(v))}
+	}
+	// a few leaves first; latest stays small so that the future guard is evaluated but does not fire
+	c.Ops = append(c.Ops, *upd("b", 1, 1), *upd("c", 1, 1))
+	if r.Chance(1, 2) {
+		c.Ops = append(c.Ops, Op{K: "upd", N: updN(1, pfx("t", "r"), pth("x"), ival(1))})
+	}
+	n := 1 + r.Intn(3)
+	ts := int64(1)
+	for i := 0; i < n; i++ {
+		ts++
+		var a, b *Op
+		park := "now"
+		switch r.Pick(5, 3, 3, 2, 2, 2, 2) {
+		case 0: // two updates of one existing leaf, the parked one older (C02: newest wins)
+			a, b = upd("b", ts, 2), upd("b", ts+1, 3)
+			ts++
+		case 1: // Reset parked while it announces its first root; an update of another root meanwhile
+			a = &Op{K: "reset", Tgt: "t"}
+			b = &Op{K: "upd", N: updN(ts, pfx("t", []string{"r", "a"}[r.Intn(2)]), pth("n"), ival(1))}
+			park = []string{"feeddel", "now", "feed"}[r.Pick(3, 1, 1)]
+		case 2: // an update parked in its callback; a delete of the same subtree meanwhile
+			a, b = upd("c", ts, 2), &Op{K: "upd", N: delN(ts+1, pfx("t", "a"), pth("*"))}
+			park = "feed"
+			ts++
+		case 3: // a subtree delete parked at its first delete notification; a re-add meanwhile
+			a, b = &Op{K: "upd", N: delN(ts, pfx("t"), pth("a"))}, upd("b", ts+1, 4)
+			park = "feeddel"
+			ts++
+		case 4: // Sync / Connect / ConnectError parked in the callback for their metadata leaf; an update meanwhile
+			// (they stamp their notification BEFORE entering the critical section, so the clock hook is
+			// outside it; the callback is inside)
+			a = &Op{K: []string{"sync", "connect", "connecterror"}[r.Intn(3)], Tgt: "t", Msg: fmt.Sprintf("boom%d", i)}
+			b = upd("b", ts, 5)
+			park = "feed"
+		case 5: // UpdateMetadata parked; Reset meanwhile
+			a, b = &Op{K: "updatemeta"}, &Op{K: "reset", Tgt: "t"}
+		default: // a multi notification parked at its first callback; an update of one of its leaves meanwhile
+			a = &Op{K: "upd", N: &NotiJ{TS: ts, Prefix: pfx("t", "a"), Upd: []UpdJ{{Path: pth("b"), Val: ival(6)}, {Path: pth("c"), Val: ival(6)}}, Del: []PathJ{*pth("zz")}}}
+			b = upd("c", ts+1, 7)
+			park = "feed"
+			ts++
+		}
+		now := int64(ts)
+		a.Now, b.Now = now, now
+		c.Ops = append(c.Ops, Op{K: "pair", Now: now, A: a, B: b, Park: park})
+		if r.Chance(1, 2) {
+			c.Ops = append(c.Ops, *upd("b", ts+1, 1))
+			ts++
 		}
 	}
 	return c
@@ -759,6 +866,13 @@ func generateC03(e *emitter, o vh.Opts) {
 	}
 	for i := 0; i < nsub; i++ {
 		e.add(subscribedCase(r.Fork()))
+	}
+	npair := 300
+	if o.Thorough() {
+		npair = 3000
+	}
+	for i := 0; i < npair; i++ {
+		e.add(pairCase(r.Fork()))
 	}
 	for i := 0; i < nval; i++ {
 		e.add(valueCase(r.Fork()))
